@@ -314,7 +314,20 @@ func mapOpsToScriptLit(mk mapKinds, ops []MapOp, lit int) string {
 		lit = 0
 	}
 	var ents []string
+	dup := false
+	seenK := map[int]bool{}
 	for _, op := range ops[:lit] {
+		if seenK[op.K] {
+			dup = true
+		}
+		seenK[op.K] = true
+	}
+	for i, op := range ops[:lit] {
+		if dup {
+			fmt.Fprintf(&b, "\tkv%d := %s\n", i, mk.keyLit(op.K))
+			ents = append(ents, fmt.Sprintf("kv%d: %s", i, mk.valLit(op.V)))
+			continue
+		}
 		ents = append(ents, mk.keyLit(op.K)+": "+mk.valLit(op.V))
 	}
 	if nilStart {
@@ -592,11 +605,15 @@ type mapTrace struct {
 }
 
 // litPrefix: how many leading operations are plain sets of distinct keys (they can form a literal)
+// litPrefixDup: the same, but a key may come again (the later entry wins; in source text such keys are written as
+// variables, since Go rejects equal CONSTANT keys)
+var c10DupKeys = false
+
 func litPrefix(ops []MapOp) int {
 	seen := map[int]bool{}
 	n := 0
 	for _, op := range ops {
-		if op.Op != "set" || op.K == 0 || op.Iter >= 0 || seen[op.K] {
+		if op.Op != "set" || op.K == 0 || op.Iter >= 0 || (seen[op.K] && !c10DupKeys) {
 			break
 		}
 		seen[op.K] = true
@@ -797,7 +814,9 @@ func checkC10(c *Ctx) {
 		// every second history starts from a map literal / NewMap with initial entries holding its leading sets
 		lit := 0
 		if len(traces)%2 == 1 && source != "go" {
+			c10DupKeys = len(traces)%4 == 3
 			lit = litPrefix(ops)
+			c10DupKeys = false
 		}
 		if len(traces)%3 == 0 && source != "go" && lit == 0 {
 			lit = -1 // start from a nil map
